@@ -388,7 +388,8 @@ def check(spec):
         ("c-close-returns-only-after-handlers", last["badC"]),
         ("d-serve-returns-nil", last["badD"]),
         ("e-no-deadlock", last["badE"]),
-        ("w-graceful-run", z3.And(all_done, last["ranHandler"], last["serveNil"], last["nCloseRet"] == nclose,
+        ("w-graceful-run", z3.And(all_done, last["ranHandler"] if spec.get("need_handler", True) else z3.BoolVal(True),
+                                  last["serveNil"], last["nCloseRet"] == nclose,
                                   z3.Not(last["panicked"]), z3.Not(last["badB"]), z3.Not(last["badC"]),
                                   z3.Not(last["badE"]))),
     ]
